@@ -50,7 +50,8 @@ fn observe(d: &DateTime) -> DtObs {
         (d.year(), d.month(), d.day(), d.day_of_year(), d.weekday()),
         (d.hour(), d.minute(), d.second(), d.milli(), d.micro(), d.nano()),
         d.get_offset(),
-        d.format("yyyy-MM-dd HH:mm:ss.nnnnn xxxxx"),
+        // the default text form is one more rendering of the same local reading
+        format!("{}|{}", d.format("yyyy-MM-dd HH:mm:ss.nnnnn xxxxx"), d),
     )
 }
 
@@ -60,7 +61,7 @@ fn expect_fields(local: i128, off: i32) -> ((i32, u32, u32, u32, u8), (u32, u32,
         (f.year as i32, f.month, f.dom, cal::day_of_year(f.day), cal::weekday(f.day) as u8),
         (f.hour, f.minute, f.second, f.subsec / 1_000_000, f.subsec / 1_000, f.subsec),
         format!(
-            "{}-{:02}-{:02} {:02}:{:02}:{:02}.{:09} {}",
+            "{}-{:02}-{:02} {:02}:{:02}:{:02}.{:09} {}|{}/{:02}/{:02} {:02}:{:02}:{:02}",
             fmt_year4(f.year),
             f.month,
             f.dom,
@@ -68,7 +69,13 @@ fn expect_fields(local: i128, off: i32) -> ((i32, u32, u32, u32, u8), (u32, u32,
             f.minute,
             f.second,
             f.subsec,
-            fmt_off_colon_full(off)
+            fmt_off_colon_full(off),
+            fmt_year4(f.year),
+            f.month,
+            f.dom,
+            f.hour,
+            f.minute,
+            f.second
         ),
     )
 }
